@@ -281,9 +281,52 @@ EnumTA ==
      \E vals \in {<<>>, <<VInt(1)>>, <<VInt(1), VInt(2), VInt(3)>>, <<VNumW(W1p5), VInt(-1)>>, <<VNaN, VNumW(WPosInf), VNumW(WNegZero)>>} :
        LET c == TACase(<<ENewArr(kd, vals), EJoin(1, s), EToStr(1)>>)
        IN TA!EvOK(c.evs[2], RunTA(c.evs, 1, TA!EmptyTS)) /\ Emit(c)
+\* ---------------- K: element reads and writes BY PROPERTY KEY (round 3) -------------------------------------------------------
+\* "Element assignment follows the documented rules" quantifies over the KEY of a[k] and a[k] = v, not only over integer
+\* numbers: the key kind (boolean, undefined, null, string naming an index, string naming no index, number naming an index
+\* incl. -0, integer number naming none (-1), non-integer number) x read / write x where the key's numeric image lies
+\* (inside, at length, beyond, receiver empty) x how the effect is looked at afterwards (the elements, the named properties,
+\* a read through ANOTHER key of the same or of a different name: a write and a read through the same key can mask each
+\* other).  A case is a short script on one receiver; after every event the driver records the result, every array's
+\* elements, the receiver's own named properties and the reads of every script key's NAME as a string.
+KStr(t) == VStr(U(t))
+KeyValsFull == {VBool(TRUE), VBool(FALSE), Undef, Null, KStr("0"), KStr("1"), KStr("2"), KStr("x"), KStr("true"), KStr("false"), KStr("null"),
+                KStr("01"), KStr("-1"), KStr("1.0"), VStr(<<>>), VInt(0), VInt(1), VInt(2), VInt(3), VInt(-1), VNumW(WNegZero),
+                VNaN, VNumW(W1p5), VNumW(WPosInf)}
+KeyValsQuick == {VBool(TRUE), VBool(FALSE), Undef, Null, KStr("1"), KStr("x"), KStr("true"), KStr("01"), KStr("-1"),
+                 VInt(0), VInt(1), VInt(-1), VNumW(WNegZero), VNaN, VNumW(W1p5)}
+KeyVals(q) == IF q THEN KeyValsQuick ELSE KeyValsFull
+KeyClass(kv) == CASE kv.k = "str" -> (IF KeyIndex(kv.u) >= 0 THEN "str-index" ELSE "str-name")
+                  [] kv.k = "num" -> (IF KeyIndex(KeyU(kv)) >= 0 THEN (IF kv.w = WNegZero THEN "num-negzero" ELSE "num-index")
+                                      ELSE IF StrictRejectKey(kv) THEN "num-nonint" ELSE "num-negative")
+                  [] OTHER -> kv.k
+KeyRecvQuick == {<<>>, <<N1>>, <<N1, N2>>, <<N9, N2, N1>>}
+KeyRecv(q) == IF q THEN KeyRecvQuick ELSE KeyRecvQuick \cup {<<UN, NL, NAN, AR, TR, N1>>, <<TR, N1>>}
+KeyStored(q) == IF q THEN {VInt(7)} ELSE {VInt(7), Undef, AR}
+KGet(kv) == [op |-> "get", k |-> kv, v |-> Undef]
+KSet(kv, x) == [op |-> "set", k |-> kv, v |-> x]
+KeyCase(rv, evs) == [ty |-> "key", store |-> MkStore(rv), r |-> 1, evs |-> evs, probes |-> [j \in 1..Len(evs) |-> VStr(KeyU(evs[j].k))]]
+KeyScripts(q) ==
+  {<<KGet(kv)>> : kv \in KeyVals(q)}                                                               \* a read that no write precedes
+  \cup {<<KSet(kv, x)>> : kv \in KeyVals(q), x \in KeyStored(q)}
+  \cup {<<KSet(kv, x), KGet(k2)>> : kv \in KeyVals(q), k2 \in KeyVals(q), x \in KeyStored(q)}      \* read back through any key
+  \cup {<<KSet(kv, VInt(7)), KSet(k2, VInt(8)), KGet(kv), KGet(k2)>> : kv \in KeyValsQuick, k2 \in (IF q THEN {VBool(TRUE), KStr("1"), VInt(0), KStr("x")} ELSE KeyValsQuick)}
+KeyGrid(q) == {KeyCase(rv, evs) : rv \in KeyRecv(q), evs \in KeyScripts(q)}
+KeyCaseOK(c) == \A j \in 1..Len(c.evs) : KeyEvOK(c.evs[j])
+\* the quick sub-grid contains every class of the family (a dropped class is a Machinery failure, not silence)
+KeyGridLaw(q) ==
+  /\ KeyValsQuick \subseteq KeyValsFull /\ KeyScripts(TRUE) \subseteq KeyScripts(FALSE) /\ KeyRecv(TRUE) \subseteq KeyRecv(FALSE)
+  /\ {KeyClass(kv) : kv \in KeyValsQuick} = {KeyClass(kv) : kv \in KeyValsFull}
+  /\ {"bool", "undef", "null", "str-index", "str-name", "num-index", "num-negzero", "num-negative", "num-nonint"} \subseteq {KeyClass(kv) : kv \in KeyValsQuick}
+  /\ \A kv \in KeyValsFull : KeyEvOK(KGet(kv))
+  /\ \A kv \in KeyValsQuick : \A n \in 0..3 :                \* every key meets a receiver of every length 0..3, read and written, alone and read back
+       \E rv \in KeyRecvQuick : Len(rv) = n /\ <<KGet(kv)>> \in KeyScripts(TRUE) /\ <<KSet(kv, VInt(7))>> \in KeyScripts(TRUE)
+                                /\ \A k2 \in KeyValsQuick : <<KSet(kv, VInt(7)), KGet(k2)>> \in KeyScripts(TRUE)
+EnumKeys == \E c \in KeyGrid(Quick) : KeyCaseOK(c) /\ Emit(c)
 EnumRW == \E g \in RWGrid(Quick) : RWOk(g) /\ Emit([ty |-> "ta", evs |-> RWEvs(g), fam |-> "rw"])
 Parts == IF "C17_PARTS" \in DOMAIN IOEnv THEN IOEnv.C17_PARTS ELSE "all"          \* development switch: anything but "all" = this family only
-EnumNext == ph = "start" /\ (IF Parts # "all" THEN EnumRW ELSE (EnumPlain \/ EnumCallbacks \/ EnumSort \/ EnumTA \/ EnumRW))
+EnumNext == ph = "start" /\ (IF Parts = "key" THEN EnumKeys ELSE IF Parts # "all" THEN EnumRW
+                              ELSE (EnumPlain \/ EnumCallbacks \/ EnumSort \/ EnumTA \/ EnumRW \/ EnumKeys))
 EnumEmit == ph = "start" \/ PrintT(ToJson(cur))
 
 \* ---------------- Laws of the references (INVARIANT LawsHold in the Enum configuration) ------------------
@@ -364,8 +407,26 @@ TALaw(c) ==
      /\ \A i, j \in 1..Len(ts.views) :                                                   \* aliasing: same kind, same bytes => same elements
           LET v == ts.views[i]  u == ts.views[j]
           IN (v.kind = u.kind /\ v.buf = u.buf /\ v.off = u.off /\ v.len = u.len) => TA!ViewElems(ts, v) = TA!ViewElems(ts, u)
-LawsHold == CASE ph = "start" -> CodecLaws /\ RWLaw(Quick)
-              [] ph = "case" -> IF cur.ty = "call" THEN CallLaw(cur) ELSE TALaw(cur)
+\* family K: laws of the reference on every enumerated script
+RECURSIVE KeyLawFrom(_, _, _, _)
+KeyLawFrom(c, k, ks, st) ==
+  k > Len(c.evs) \/
+  LET ev == c.evs[k]  cands == KeyStep(ev, ks)  x == cands[1]  u == KeyU(ev.k)  isIdx == KeyIndex(u) >= 0
+  IN /\ \A j \in 1..Len(cands) : cands[j].out.o \in {"value", "throw"}                               \* never a host error
+     /\ \A j \in 2..Len(cands) : cands[j].out.o = "throw" /\ cands[j].ks = ks                        \* a refusal changes nothing
+     /\ (ev.op = "get" => x.ks = ks)
+     /\ (ev.op = "set" /\ ~isIdx => x.ks.el = ks.el /\ x.out = ValOut(ev.v))                         \* a name never touches the elements
+     /\ (ev.op = "set" /\ isIdx => x.ks.pr = ks.pr /\ Len(x.ks.el) \in {Len(ks.el), Len(ks.el) + 1}   \* an index never makes a property
+                                   /\ (x.out.o = "throw" <=> KeyIndex(u) > Len(ks.el)) /\ (x.out.o = "throw" => x.ks = ks))
+     /\ (ev.op = "set" /\ x.out.o = "value" => SameX(KeyGet(ev.k, x.ks), ev.v))                       \* read back through the same key
+     /\ SameX(KeyGet(VStr(u), x.ks), KeyGet(ev.k, x.ks))                                             \* the key and its name are one property
+     /\ (~isIdx => \A i \in 0..(Len(x.ks.el) - 1) : SameX(KeyGet(VInt(i), x.ks), x.ks.el[i + 1]))
+     /\ \A i, j \in 1..Len(x.ks.pr) : (i # j => x.ks.pr[i].n # x.ks.pr[j].n)                          \* one property per name
+     /\ \A i \in 1..Len(x.ks.pr) : KeyIndex(x.ks.pr[i].n) < 0
+     /\ KeyLawFrom(c, k + 1, x.ks, st)
+KeyLaw(c) == KeyCaseOK(c) /\ KeyLawFrom(c, 1, [el |-> c.store[c.r], pr |-> <<>>], c.store)
+LawsHold == CASE ph = "start" -> CodecLaws /\ RWLaw(Quick) /\ KeyGridLaw(Quick)
+              [] ph = "case" -> IF cur.ty = "call" THEN CallLaw(cur) ELSE IF cur.ty = "key" THEN KeyLaw(cur) ELSE TALaw(cur)
               [] OTHER -> TRUE
 
 \* ---------------- the array store as a state machine (INIT SMInit, NEXT SMNext, INVARIANT SMInv) -----------------
@@ -470,9 +531,34 @@ CallVerdict(c, obs) ==
              ELSE LET D == CHOOSE D \in Expl : \A D2 \in Expl : Cardinality(D) <= Cardinality(D2)
                       x == Call(c.m, c.store, c.r, c.a, c.cb, D)
                   IN V("known", IF Matches(c, obs, x, FALSE) THEN (CHOOSE d \in D : TRUE) ELSE x.opaque, why)
+\* family K: rc = [id, ty = "key", store, r, evs (each with obs = [out, store, pr, probes]), probes]
+KeyObsOK(o) == /\ \A i \in 1..Len(o.store) : \A j \in 1..Len(o.store[i]) : ObsTypeOK(o.store[i][j])
+               /\ \A i \in 1..Len(o.pr) : ObsTypeOK(o.pr[i].v)
+               /\ \A i \in 1..Len(o.probes) : ObsTypeOK(o.probes[i])
+               /\ (o.out.o = "value" => ObsTypeOK(o.out.v))
+KeyFrameOK(c, o) == Len(o.store) = Len(c.store) /\ \A i \in 1..Len(c.store) : (i # c.r => SameSeq(o.store[i], c.store[i]))
+KeyPropsOK(o, ks) == Len(o.pr) = Len(ks.pr) /\ \A i \in 1..Len(ks.pr) : o.pr[i].n = ks.pr[i].n /\ SameX(o.pr[i].v, ks.pr[i].v)
+KeyProbesOK(c, o, ks) == Len(o.probes) = Len(c.probes) /\ \A j \in 1..Len(c.probes) : SameX(o.probes[j], KeyGet(c.probes[j], ks))
+KeyMatch(c, o, x) == /\ OutOK(o.out, x.out) /\ KeyFrameOK(c, o) /\ SameSeq(o.store[c.r], x.ks.el)
+                     /\ KeyPropsOK(o, x.ks) /\ KeyProbesOK(c, o, x.ks)
+KV(v, at, why, x) == [v |-> v, dev |-> "", why |-> why, at |-> at, exp |-> x.out, expstore |-> <<x.ks.el, x.ks.pr>>]
+RECURSIVE KeyRun(_, _, _)
+KeyRun(c, k, ks) ==
+  IF k > Len(c.evs) THEN KV("pass", 0, "", KR(ValOut(Undef), ks))
+  ELSE LET ev == c.evs[k]  o == ev.obs  cands == KeyStep(ev, ks)  x == cands[1]
+           good == {j \in 1..Len(cands) : KeyMatch(c, o, cands[j])}
+       IN IF ~KeyEvOK(ev) THEN KV("unsupported", k, "", x)
+          ELSE IF ~KeyObsOK(o) THEN KV("violation", k, "typeok", x)
+          ELSE IF good = {} THEN KV("violation", k, IF ~OutOK(o.out, x.out) THEN "result"
+                                                     ELSE IF ~(KeyFrameOK(c, o) /\ SameSeq(o.store[c.r], x.ks.el)) THEN "elements"
+                                                     ELSE IF ~KeyPropsOK(o, x.ks) THEN "properties" ELSE "read-by-name", x)
+          ELSE KeyRun(c, k + 1, cands[CHOOSE j \in good : \A j2 \in good : j <= j2].ks)
+KeyVerdict(c) == KeyRun(c, 1, [el |-> c.store[c.r], pr |-> <<>>])
 JudgeInit == /\ rec_i \in 1..Len(Recs) /\ ph = "judge" /\ cur = <<>> /\ Idle
-             /\ LET rc == Recs[rec_i]  v == CallVerdict(rc, rc.obs)
-                IN PrintT(ToJson([id |-> rc.id, v |-> v.v, dev |-> v.dev, why |-> v.why, exp |-> v.exp, expstore |-> v.expstore]))
+             /\ LET rc == Recs[rec_i]
+                IN IF rc.ty = "key"
+                   THEN LET v == KeyVerdict(rc) IN PrintT(ToJson([id |-> rc.id, v |-> v.v, dev |-> v.dev, why |-> v.why, at |-> v.at, exp |-> v.exp, expstore |-> v.expstore]))
+                   ELSE LET v == CallVerdict(rc, rc.obs) IN PrintT(ToJson([id |-> rc.id, v |-> v.v, dev |-> v.dev, why |-> v.why, exp |-> v.exp, expstore |-> v.expstore]))
 JudgeNext == UNCHANGED vars
 
 \* ---------------- Trace: histories over shared arrays, typed-array scripts -------------------------------------
